@@ -72,7 +72,7 @@ TLookupAll == /\ IsEv("lookupAll") /\ stack = <<>> /\ status \in {"done", "faile
               /\ E.ok => /\ \A i \in 1..Len(E.res) : E.res[i].n \in Node /\ E.res[i] = Proj(L1[E.res[i].n])
                           /\ {E.res[j].n : j \in 1..Len(E.res)} = Node /\ Len(E.res) = N
               /\ UNCHANGED vars
-TProcInit == IsEv("procInit") /\ ProcInit(E.n)
+TProcInit == IsEv("procInit") /\ E.populated /\ E.depInited /\ ProcInit(E.n)
 TReset == /\ IsEv("scenario")
           /\ ResetTo(ScOf(E.sc))
 
